@@ -30,14 +30,18 @@ def to_impl(entries, P):
             v = np.array(e['v'], dtype=int).reshape(e['shape'])
             if e['m'] is None:
                 out.append(P.Scalar(v) if e.get('obj') else v)
-            else:
+            elif e.get('obj', True):
                 out.append(P.Scalar(v, _mask_of(e)))
+            else:       # the same masked index given as a NumPy MaskedArray (seeded change C09-M: its mask was dropped)
+                out.append(np.ma.MaskedArray(v, mask=np.broadcast_to(np.asarray(_mask_of(e)), v.shape).copy()))
         elif k == 'barr':
             v = np.array(e['v'], dtype=bool).reshape(e['shape'])
             if e['m'] is None:
                 out.append(P.Boolean(v) if e.get('obj') else v)
-            else:
+            elif e.get('obj', True):
                 out.append(P.Boolean(v, _mask_of(e)))
+            else:
+                out.append(np.ma.MaskedArray(v, mask=np.broadcast_to(np.asarray(_mask_of(e)), v.shape).copy()))
         elif k == 'vec':
             v = np.array(e['v'], dtype=int).reshape(list(e['shape']) + [e['n']])
             cls = P.Pair if e['n'] == 2 else P.Vector
